@@ -80,10 +80,19 @@ def client_framing(ctx, rng):
                 else:
                     for q in QUERIES[:ctx.pick(4, 10)]:
                         urls.append((peer.url + ("?" + q if q else ""), "/" + ("?" + q if q else "")))
-                for url, target in urls:
+                for ui, (url, target) in enumerate(urls):
                     history = History()
                     try:
-                        proxy = jsonrpclib.ServerProxy(url, history=history, config=config)
+                        if ui % 3 == 1:
+                            # a transport supplied by the caller (pre-built, shared, or a subclass) instead of the
+                            # one the proxy builds for itself
+                            import jsonrpclib.jsonrpc as jr
+                            tr = jr.UnixTransport(config=config, path=peer.path) if fam == "unix" else \
+                                jr.Transport(config=config)
+                            proxy = jsonrpclib.ServerProxy(url, transport=tr, history=history, config=config)
+                            ctx.count("client-proxies-with-caller-supplied-transport")
+                        else:
+                            proxy = jsonrpclib.ServerProxy(url, history=history, config=config)
                     except Exception as ex:
                         ctx.violate("proxy-construction-raised-%s" % type(ex).__name__, {"part": "client", "url": url},
                                     {"raised": ex})
